@@ -3,7 +3,8 @@ from ..core import gz, glist, gbool
 
 ID = "C27"
 PROPS = ["theories/Props/C27.vo"]
-PINNED = ["C27_errno_mapping"]
+PINNED = ["C27_errno_mapping", "C27_holds_outside", "C27_own_completion", "C27_call_spec",
+          "C27_refuted_timed_out_call_keeps_slot", "C27_refuted_coroutine_bad_fd_aborts"]
 CASES_MODULE = "Cases.C27"
 HEADER = ""
 AREA = "uring"
@@ -337,6 +338,32 @@ def distribution(results):
     return d
 
 
-LEVEL_TEXT = "work in progress"
-LEVEL_NOTE = "work in progress"
-TECHNIQUE = "proof"
+LEVEL_TEXT = ("Unbounded theorems about the Gallina model of the io_uring call path (token per caller, syscall_wait_table, "
+              "slot registration and submission as two steps with a thread parked in between, completion dispatch by "
+              "token, thread wake-up on its own slot, coroutine resume by token, coroutine time limit, mapping of the raw "
+              "completion value): C27_holds_outside / C27_own_completion (any number of thread and coroutine callers with "
+              "descriptors of their own and distinct tokens, every script, i.e. every interleaving of starts, feeds, "
+              "releases of parked threads, kernel completions in any order and time-limit expiries: the run ends "
+              "normally, every call handed back the answer of its own request - the next bytes of its own descriptor's "
+              "stream, its own error with the matching errno - and no byte a descriptor delivered is missing), "
+              "C27_call_spec (what the oracle accepts for one call), C27_errno_mapping (negative completion -> -1 with "
+              "errno = -value), and the refutation witnesses of the two recorded findings, which the theorem excludes "
+              "through no_defect (coroutine read on a socket with a receive time limit; coroutine call on a descriptor "
+              "number that is not open). The model is tied to the real runtime built with the io_uring feature on this "
+              "kernel: the same cases run as real threads and real coroutines of a real EventLoops making hooked "
+              "read/recv/write/send calls, and per-call return value, errno and buffer bytes plus the per-descriptor "
+              "leftovers are compared with the model inside Coq.")
+LEVEL_NOTE = ("PARTIAL. Trusted: Coq kernel + vm_compute; hand-written model validated on sampled cases only. The order in "
+              "which the kernel completes requests is not observed on the real run: it is an input of the model "
+              "(EComplete) and the theorem shows the observations do not depend on it, so the comparison is on "
+              "order-independent observations only. Kernel results of the four calls on pipes, socketpairs and a closed "
+              "descriptor number are a specification in the model. Token distinctness between concurrent callers is "
+              "assumed (wf), not observed. Descriptors shared between callers, coroutines of foreign schedulers, "
+              "coroutine migration between event loops, the other 20 io_uring-backed calls (same macros, not driven), "
+              "the concurrent consumption of the completion queue by a second thread inside wait_just, memory safety of "
+              "the buffer a timed-out request still points to: not covered. The two findings timed_out_call_keeps_slot "
+              "and coroutine_bad_fd_aborts are recorded as known (refuted + holds_outside); three defects found here "
+              "were repaired by fix: commits and the model describes the repaired code. No axioms (Print Assumptions: "
+              "closed under the global context).")
+TECHNIQUE = ("machine-checked proof in Coq 8.16 about a hand-written Gallina model + differential correspondence against "
+             "the Rust code built with the io_uring feature")
